@@ -22,7 +22,7 @@ import (
 func init() {
 	Register(&Prop{
 		ID:   "C09",
-		Expl: "Decides on SSA, for every synchronous static call path that starts in SwapService.OnMessageReceived (handler parameters are bound to the dispatcher's values along the path): (R1) every SendEvent/Recover on a machine that the same function did not lock in is reached only through the passing edge of a sender test applied to the dispatcher's peer parameter — isMessageSenderExpectedPeer(peer, id), a wrapper or local closure (with the peer as parameter or captured variable) all of whose success returns lie behind it, or the inlined comparison activeSwaps[id].Data.PeerNodeId == peer — and isMessageSenderExpectedPeer itself returns only false or that comparison; (R2) the machine that receives the event is the activeSwaps entry looked up under exactly the id whose sender was tested (same message object, same SwapId field); (R3) in every function on such a path that locks a new swap in (the two request handlers) each lockSwap/SendEvent is preceded on all paths by a test of an existence oracle keyed by the requested id for the persistent store (Store.GetData, a pass-through wrapper such as GetSwap, or a boolean predicate over the id computed from such tests; tested through err == nil, err ==/!= ErrDataNotAvailable, errors.Is, or result != nil) and for the live map (GetActiveSwap, an activeSwaps lookup, or a not-present test inside lockSwap before the insert whose present edge returns an error), whose may-exist edge cannot reach them; (R4) every EventContext.ApplyToSwapData call is dominated by the success edge of the next-state lookup (getNextState — found as the method that looks its event parameter up in an Events map — or any method that succeeds only behind it, e.g. EventIsValid) for the event delivered with the context, on the same machine; when the apply sits in a wrapper, at every call of the wrapper; (R5) no function reachable from OnMessageReceived outside SendEvent/Recover stores into a SwapData / SwapStateMachine it did not allocate itself or calls Store.UpdateData. Quantifier: all message types (every call site in the dispatcher), all handlers, all CFG paths.",
+		Expl: "Decides on SSA, for every synchronous static call path that starts in SwapService.OnMessageReceived (handler parameters are bound to the dispatcher's values along the path): (R1) every SendEvent/Recover on a machine that the same function did not lock in is reached only through the passing edge of a sender test applied to the dispatcher's peer parameter — isMessageSenderExpectedPeer(peer, id), a wrapper or local closure (with the peer as parameter or captured variable) all of whose success returns lie behind it, or the inlined comparison activeSwaps[id].Data.PeerNodeId == peer — and isMessageSenderExpectedPeer itself returns only false or that comparison; (R2) the machine that receives the event is the activeSwaps entry looked up under exactly the id whose sender was tested (same message object, same SwapId field); (R3) in every function on such a path that locks a new swap in (the two request handlers) each lockSwap/SendEvent is preceded on all paths by a test of an existence oracle keyed by the requested id for the persistent store (Store.GetData, a pass-through wrapper such as GetSwap, or a boolean predicate over the id computed from such tests; tested through err == nil, err ==/!= ErrDataNotAvailable, errors.Is, or result != nil) and for the live map (GetActiveSwap, an activeSwaps lookup, or a not-present test inside lockSwap before the insert whose present edge returns an error), whose may-exist edge cannot reach them; and between the passing edge of a handler-level existence test and the lock-in no call leaves the process (the impure service interfaces LightningClient, Wallet, TxWatcher, Policy, Messenger, Store …, directly or through module callees), so that no swap with that id can be created and finished between check and lock-in; (R4) every EventContext.ApplyToSwapData call is dominated by the success edge of the next-state lookup (getNextState — found as the method that looks its event parameter up in an Events map — or any method that succeeds only behind it, e.g. EventIsValid) for the event delivered with the context, on the same machine; when the apply sits in a wrapper, at every call of the wrapper; (R5) no function reachable from OnMessageReceived outside SendEvent/Recover stores into a SwapData / SwapStateMachine it did not allocate itself or calls Store.UpdateData. (R6) once the sender test has passed in a dispatch arm, every path to a return that may be nil passes the handler call, and inside the handlers every such path passes SendEvent: a skipped delivery that depends on stored service/swap state (named, with a note when that state is written before the sender is authenticated) or is unconditional is a violation, a condition that cannot be interpreted makes the obligation undecided, a condition on the message content alone is accepted. Quantifier: all message types (every call site in the dispatcher), all handlers, all CFG paths.",
 		NotD: "Races between an existence test made in a handler and the insert in lockSwap (a test in the handler is accepted like one inside lockSwap); that bboltStore.GetData reports every stored id; dynamic calls inside handlers (only static calls and directly called local closures are followed; a closure that itself reaches SendEvent/lockSwap makes the check undecided); a sender test, existence test or acceptance test of a shape that is not understood makes the obligation undecided (exit 2), a VIOLATION is reported only when no condition on the peer / no test of the oracle / no lookup exists on the path or the wrong thing is positively compared; the messenger implementations that invoke OnMessageReceived; whether Validate implementations are read-only; events injected by timers, chain watchers and payment notifications (not peer messages).",
 		Run:  runC09,
 	})
@@ -62,6 +62,7 @@ type c09Ctx struct {
 
 	// results of the walk
 	guardedSites int
+	r6Sites      int
 	unguarded    int
 	r2Sites      int
 	creators     map[*ssa.Function]*c09Frame
@@ -113,10 +114,12 @@ type c09Pred struct {
 }
 
 type c09Guard struct {
-	unsure string // non-empty: something that looks like a sender test passed but could not be verified
-	id     c09Org // the id that was tested, in root terms
-	desc   string
-	call   *ssa.Call // lookup call of the inline variant (its machine may be reused)
+	edge    an.Edge // the passing edge of the sender test
+	hasEdge bool
+	unsure  string // non-empty: something that looks like a sender test passed but could not be verified
+	id      c09Org // the id that was tested, in root terms
+	desc    string
+	call    *ssa.Call // lookup call of the inline variant (its machine may be reused)
 }
 
 func runC09(c *an.Check) {
@@ -124,6 +127,7 @@ func runC09(c *an.Check) {
 	c.Rule("C09.R2", "the machine that receives a peer event is activeSwaps[id] for exactly the id whose sender was tested")
 	c.Rule("C09.R3", "request handlers: every lockSwap/SendEvent is preceded on all paths by a store-existence test and a live-map existence test keyed by the requested id whose may-exist edge cannot reach them")
 	c.Rule("C09.R4", "every ApplyToSwapData call is dominated by the success edge of the next-state lookup for the delivered event on the same machine")
+	c.Rule("C09.R6", "once the sender test has passed, every path to a nil return passes the handler call / SendEvent: an authenticated message is not dropped on stored state")
 	c.Rule("C09.R5", "no function reachable from OnMessageReceived outside SendEvent writes a SwapData/SwapStateMachine it did not allocate, or calls Store.UpdateData")
 
 	w := c.W
@@ -189,6 +193,7 @@ func runC09(c *an.Check) {
 	x.walk(rootFrame, x.root.Params[peerIdx], nil, map[*ssa.Function]bool{})
 	c.AtLeast("C09.R1", "dispatch sites to existing swaps examined (guarded + unguarded)", x.guardedSites+x.unguarded, 5)
 	c.AtLeast("C09.R2", "SendEvent sites on existing swaps examined", x.r2Sites+x.unguarded, 5)
+	c.AtLeast("C09.R6", "dispatched message types that go to an existing swap (delivery examined)", x.r6Sites+x.unguarded, 5)
 
 	x.ruleR3()
 	x.ruleR4()
@@ -1186,7 +1191,7 @@ func (x *c09Ctx) guardAt(fr *c09Frame, peer ssa.Value, at ssa.Instruction) *c09G
 		for _, e := range pass {
 			if an.EdgeDominates(e, at.Block()) {
 				if org, ok := x.resolve(fr, k.Call.Args[o.ii]); ok {
-					return &c09Guard{id: org, desc: x.fname(k.Common().StaticCallee()) + " passed"}
+					return &c09Guard{id: org, desc: x.fname(k.Common().StaticCallee()) + " passed", edge: e, hasEdge: true}
 				}
 			}
 		}
@@ -1205,7 +1210,7 @@ func (x *c09Ctx) guardAt(fr *c09Frame, peer ssa.Value, at ssa.Instruction) *c09G
 				continue
 			}
 			if o, call, ok := x.machineKey(fr, m); ok {
-				return &c09Guard{id: o, desc: "PeerNodeId == peer", call: call}
+				return &c09Guard{id: o, desc: "PeerNodeId == peer", call: call, edge: f.Edge, hasEdge: true}
 			}
 		}
 	}
@@ -1315,6 +1320,9 @@ func (x *c09Ctx) walk(fr *c09Frame, peer ssa.Value, g *c09Guard, onPath map[*ssa
 	onPath[fn] = true
 	defer delete(onPath, fn)
 	x.visitedR5[fn] = true
+	if g != nil && g.unsure == "" && fr.parent != nil {
+		x.deliveryInside(fr)
+	}
 	for _, a := range fn.AnonFuncs {
 		// closures are not followed with parameter bindings
 		if x.reachesSend(a) || x.reachesLock(a) {
@@ -1350,6 +1358,7 @@ func (x *c09Ctx) walk(fr *c09Frame, peer ssa.Value, g *c09Guard, onPath map[*ssa
 				if gg != nil && gg.unsure == "" {
 					x.guardedSites++
 					c.OK("C09.R1", cons, w.Pos(ci.Pos()), "dominated by "+gg.desc)
+					x.delivery(fr, gg, ci, x.fname(fn)+" delivers "+callee.Name()+"("+c09EventOf(ci)+") once the sender test passed")
 				}
 			}
 			if gg != nil && gg.unsure != "" {
@@ -1397,6 +1406,7 @@ func (x *c09Ctx) walk(fr *c09Frame, peer ssa.Value, g *c09Guard, onPath map[*ssa
 			if gg != nil && gg.unsure == "" {
 				x.guardedSites++
 				c.OK("C09.R1", x.fname(fn)+" -> "+x.fname(callee), w.Pos(ci.Pos()), "dispatch dominated by "+gg.desc)
+				x.delivery(fr, gg, ci, x.fname(fn)+" delivers to "+x.fname(callee)+" once the sender test passed")
 			}
 		}
 		if fr.depth+1 > c09MaxDepth {
@@ -1405,6 +1415,269 @@ func (x *c09Ctx) walk(fr *c09Frame, peer ssa.Value, g *c09Guard, onPath map[*ssa
 		}
 		x.walk(x.enter(fr, ci, callee), peer, gg, onPath)
 	}
+}
+
+// ---- R6: delivery ------------------------------------------------------------------
+
+// delivery: in frame fr the sender test passed on edge gg.edge; target is the
+// call that hands the message on. Every return reachable from the passing edge
+// without executing target must return a non-nil error.
+func (x *c09Ctx) delivery(fr *c09Frame, gg *c09Guard, target ssa.CallInstruction, cons string) {
+	if !gg.hasEdge {
+		return
+	}
+	x.r6Sites++
+	x.deliveryCheck(fr.fn, []*ssa.BasicBlock{gg.edge.To()}, []ssa.CallInstruction{target}, cons, x.w.Pos(target.Pos()), gg.edge.From)
+}
+
+// deliveryInside: fr.fn was entered behind a passed sender test; from its entry
+// every nil return must pass one of the calls that lead to SendEvent.
+func (x *c09Ctx) deliveryInside(fr *c09Frame) {
+	fn := fr.fn
+	var targets []ssa.CallInstruction
+	for _, ci := range an.Calls(fn) {
+		g := ci.Common().StaticCallee()
+		if g == nil {
+			continue
+		}
+		if _, isGo := ci.(*ssa.Go); isGo {
+			continue
+		}
+		if g == x.sendEvent || g == x.recoverFn || (x.w.InModule(g) && g.Blocks != nil && x.reachesSend(g)) {
+			targets = append(targets, ci)
+		}
+	}
+	if len(targets) == 0 || len(fn.Blocks) == 0 {
+		return
+	}
+	x.deliveryCheck(fn, []*ssa.BasicBlock{fn.Blocks[0]}, targets, x.fname(fn)+" delivers the authenticated message", x.w.Pos(fn.Pos()), nil)
+}
+
+func (x *c09Ctx) deliveryCheck(fn *ssa.Function, start []*ssa.BasicBlock, targets []ssa.CallInstruction, cons, pos string, guardBlock *ssa.BasicBlock) {
+	c, w := x.c, x.w
+	stop := map[*ssa.BasicBlock]bool{}
+	for _, t := range targets {
+		stop[t.Block()] = true
+	}
+	reach := an.ReachBlocks(start, nil, stop)
+	var bad, unk []string
+	for _, r := range an.Returns(fn) {
+		if !reach[r.Block()] || stop[r.Block()] {
+			continue
+		}
+		if fn.Recover != nil && r.Block() == fn.Recover {
+			continue
+		}
+		if x.retErr(r) == "nonnil" {
+			continue
+		}
+		// a return that may be nil and skips the delivery: on which condition?
+		where := "the return at " + w.Pos(r.Pos())
+		var named, opaque []string
+		nConds := 0
+		for _, f := range w.FactsDominatingBlock(r.Block()) {
+			if f.Cond == nil || !(reach[f.Edge.From]) {
+				continue
+			}
+			if f.Edge.From == guardBlock {
+				continue
+			}
+			nConds++
+			n, o := x.stateOf(f.Cond, 0, map[ssa.Value]bool{})
+			for _, s := range n {
+				extra := ""
+				if guardBlock != nil {
+					extra = x.beforeGuard(f.Cond, guardBlock)
+				}
+				named = append(named, s+extra)
+			}
+			opaque = append(opaque, o...)
+		}
+		switch {
+		case len(named) > 0:
+			bad = append(bad, where+" skips the delivery depending on "+strings.Join(c09Uniq(named), ", "))
+		case nConds == 0:
+			bad = append(bad, where+" ends the arm without delivering the message and without an error")
+		case len(opaque) > 0:
+			unk = append(unk, where+" skips the delivery on a condition that is not understood: "+strings.Join(c09Uniq(opaque), ", "))
+		case x.retErr(r) != "nil":
+			unk = append(unk, where+" skips the delivery; whether it reports an error could not be resolved")
+		default:
+			// a condition on the content of the (authenticated) message itself
+		}
+	}
+	switch {
+	case len(bad) > 0:
+		c.Bad("C09.R6", cons, pos, strings.Join(c09Uniq(bad), "; ")+". History: state that is keyed by the swap id and written for every incoming message (also for a third party's message that the sender test then refuses) decides whether the real counterparty's message reaches the state machine: a non-counterparty that spoofs the message type first makes the counterparty's message and all its retries disappear")
+	case len(unk) > 0:
+		c.Unknown("C09.R6", cons, pos, strings.Join(c09Uniq(unk), "; "))
+	default:
+		c.OK("C09.R6", cons, pos, "every path that does not hand the message on returns a non-nil error")
+	}
+}
+
+// beforeGuard: the stored state behind cond is produced by a call that runs
+// before the sender test.
+func (x *c09Ctx) beforeGuard(cond ssa.Value, guardBlock *ssa.BasicBlock) string {
+	var call *ssa.Call
+	var find func(v ssa.Value, d int)
+	find = func(v ssa.Value, d int) {
+		if d > 6 || call != nil {
+			return
+		}
+		switch y := v.(type) {
+		case *ssa.Call:
+			call = y
+		case *ssa.Extract:
+			find(y.Tuple, d+1)
+		case *ssa.UnOp:
+			find(y.X, d+1)
+		case *ssa.BinOp:
+			find(y.X, d+1)
+			find(y.Y, d+1)
+		case *ssa.Phi:
+			for _, e := range y.Edges {
+				find(e, d+1)
+			}
+		}
+	}
+	find(cond, 0)
+	if call == nil {
+		return ""
+	}
+	if call.Block() == guardBlock || an.ReachBlocks([]*ssa.BasicBlock{call.Block()}, nil, nil)[guardBlock] {
+		return " (computed at " + x.w.Pos(call.Pos()) + ", before the sender is authenticated: a refused third-party message changes it)"
+	}
+	return ""
+}
+
+// stateOf: which stored state (fields of SwapService / SwapStateMachine /
+// SwapData, directly or through module functions that touch them) a condition
+// depends on (named), and which parts of it cannot be interpreted (opaque).
+func (x *c09Ctx) stateOf(v ssa.Value, depth int, seen map[ssa.Value]bool) (named, opaque []string) {
+	if v == nil || seen[v] || depth > 10 {
+		return
+	}
+	seen[v] = true
+	add := func(n, o []string) {
+		named = append(named, n...)
+		opaque = append(opaque, o...)
+	}
+	isState := func(t types.Type) string {
+		if n := an.NamedOf(t); n != nil && n.Obj().Pkg() != nil {
+			switch n.Obj().Name() {
+			case "SwapService", "SwapStateMachine", "SwapData", "SwapServices":
+				return n.Obj().Name()
+			}
+		}
+		return ""
+	}
+	switch y := v.(type) {
+	case *ssa.Const, *ssa.Parameter, *ssa.Global, *ssa.Function:
+	case *ssa.FieldAddr:
+		if isState(y.X.Type()) != "" {
+			named = append(named, "stored state "+an.FieldName(y.X.Type(), y.Field))
+			return
+		}
+		add(x.stateOf(y.X, depth+1, seen))
+	case *ssa.Field:
+		add(x.stateOf(y.X, depth+1, seen))
+	case *ssa.UnOp:
+		if al, ok := y.X.(*ssa.Alloc); ok && y.Op == token.MUL {
+			if al.Referrers() != nil {
+				for _, r := range *al.Referrers() {
+					if st, ok := r.(*ssa.Store); ok && st.Addr == ssa.Value(al) {
+						add(x.stateOf(st.Val, depth+1, seen))
+					}
+				}
+			}
+			return
+		}
+		add(x.stateOf(y.X, depth+1, seen))
+	case *ssa.BinOp:
+		add(x.stateOf(y.X, depth+1, seen))
+		add(x.stateOf(y.Y, depth+1, seen))
+	case *ssa.Phi:
+		for _, e := range y.Edges {
+			add(x.stateOf(e, depth+1, seen))
+		}
+	case *ssa.Extract:
+		add(x.stateOf(y.Tuple, depth+1, seen))
+	case *ssa.Lookup:
+		add(x.stateOf(y.X, depth+1, seen))
+		add(x.stateOf(y.Index, depth+1, seen))
+	case *ssa.Index:
+		add(x.stateOf(y.X, depth+1, seen))
+	case *ssa.IndexAddr:
+		add(x.stateOf(y.X, depth+1, seen))
+	case *ssa.Slice:
+		add(x.stateOf(y.X, depth+1, seen))
+	case *ssa.ChangeType:
+		add(x.stateOf(y.X, depth+1, seen))
+	case *ssa.Convert:
+		add(x.stateOf(y.X, depth+1, seen))
+	case *ssa.MakeInterface:
+		add(x.stateOf(y.X, depth+1, seen))
+	case *ssa.ChangeInterface:
+		add(x.stateOf(y.X, depth+1, seen))
+	case *ssa.TypeAssert:
+		add(x.stateOf(y.X, depth+1, seen))
+	case *ssa.Alloc:
+	case *ssa.Call:
+		info := x.w.Info(y)
+		switch {
+		case info.Static != nil && x.w.InModule(info.Static) && info.Static.Blocks != nil:
+			if f := x.touchesState(info.Static, 0, map[*ssa.Function]bool{}); f != "" {
+				named = append(named, "the result of "+x.fname(info.Static)+", which uses stored state "+f)
+				return
+			}
+			for _, a := range y.Call.Args {
+				add(x.stateOf(a, depth+1, seen))
+			}
+		case info.Static != nil || strings.HasPrefix(info.Name, "builtin:"):
+			for _, a := range y.Call.Args {
+				add(x.stateOf(a, depth+1, seen))
+			}
+		default:
+			opaque = append(opaque, "the result of "+strings.TrimPrefix(info.Name, "iface:")+" ("+x.w.Pos(y.Pos())+")")
+		}
+	default:
+		opaque = append(opaque, fmt.Sprintf("%s (%T)", x.w.Term(v), v))
+	}
+	return
+}
+
+// touchesState: fn (or a static module callee, depth 2) accesses a field of
+// SwapService / SwapStateMachine / SwapData other than a mutex; returns the first such field.
+func (x *c09Ctx) touchesState(fn *ssa.Function, depth int, seen map[*ssa.Function]bool) string {
+	if fn == nil || seen[fn] || fn.Blocks == nil || depth > 2 {
+		return ""
+	}
+	seen[fn] = true
+	for _, b := range fn.Blocks {
+		for _, in := range b.Instrs {
+			if fa, ok := in.(*ssa.FieldAddr); ok {
+				if n := an.NamedOf(fa.X.Type()); n != nil {
+					switch n.Obj().Name() {
+					case "SwapService", "SwapStateMachine", "SwapData":
+						name := an.FieldName(fa.X.Type(), fa.Field)
+						if strings.HasSuffix(name, "Mutex") || strings.HasSuffix(name, ".mutex") || strings.HasSuffix(name, ".swapServices") {
+							continue
+						}
+						return name
+					}
+				}
+			}
+		}
+	}
+	for _, ci := range an.Calls(fn) {
+		if g := ci.Common().StaticCallee(); g != nil && x.w.InModule(g) {
+			if f := x.touchesState(g, depth+1, seen); f != "" {
+				return f
+			}
+		}
+	}
+	return ""
 }
 
 func c09IsPhi(v ssa.Value) bool {
@@ -1978,6 +2251,11 @@ func (x *c09Ctx) ruleR3() {
 			var unknown []string
 			var seenTests []string
 			uncovered := []string{}
+			type c09Cand struct {
+				f *c09Frame
+				t c09Test
+			}
+			lockCands := map[ssa.CallInstruction][]c09Cand{}
 			for _, e := range effects {
 				cov := false
 				// a test in the handler or in one of the frames above it
@@ -1996,6 +2274,9 @@ func (x *c09Ctx) ruleR3() {
 						}
 						if c09Covers(t, at) {
 							cov = true
+							if _, isL := x.lockers[e.Common().StaticCallee()]; isL {
+								lockCands[e] = append(lockCands[e], c09Cand{f, t})
+							}
 						}
 					}
 					if f.site != nil {
@@ -2020,6 +2301,42 @@ func (x *c09Ctx) ruleR3() {
 					uncovered = append(uncovered, fmt.Sprintf("%s at %s", strings.TrimPrefix(w.Info(e).Name, "func:"), w.Pos(e.Pos())))
 				}
 			}
+			// adjacency: nothing that leaves the process (a service call that may take
+			// seconds) between the passing edge of the existence test and the lock-in,
+			// otherwise a swap with this id can be created and finished in between
+			for _, lk := range locks {
+				consA := x.fname(h) + " existence test adjacent to lock-in: " + map[string]string{"store": "persistent store", "live": "live map"}[kind]
+				posA := w.Pos(lk.Pos())
+				cands := lockCands[lk]
+				if len(cands) == 0 {
+					if inLock[kind] {
+						c.OK("C09.R3", consA, posA, "the test is made inside lockSwap, under the lock of the insert")
+					}
+					continue // uncovered: reported above
+				}
+				best, bestUnsure := []string(nil), []string(nil)
+				clean := false
+				for i, cd := range cands {
+					imp, uns := x.between(fr, cd.f, cd.t, lk)
+					if len(imp) == 0 && len(uns) == 0 {
+						clean = true
+						break
+					}
+					if i == 0 || len(imp) < len(best) {
+						best, bestUnsure = imp, uns
+					}
+				}
+				switch {
+				case clean:
+					c.OK("C09.R3", consA, posA, "no service call between the passing edge of the test and the lock-in")
+				case inLock[kind]:
+					c.OK("C09.R3", consA, posA, "the test is repeated inside lockSwap, under the lock of the insert")
+				case len(best) > 0:
+					c.Bad("C09.R3", consA, posA, "between the passing edge of the existence test and the lock-in the handler calls out of the process: "+strings.Join(best, "; ")+". History: request A with id X passes the test and waits in that call (probe payment, balance query: seconds); meanwhile a swap with id X is created and finishes (lockSwap only consults the live map, where it is no longer present); A then locks in and its first UpdateData overwrites the finished swap's record and keys")
+				default:
+					c.Unknown("C09.R3", consA, posA, "between the existence test and the lock-in there are calls whose effects are not known: "+strings.Join(bestUnsure, "; "))
+				}
+			}
 			pos := w.Pos(h.Pos())
 			switch {
 			case len(effects) == 0:
@@ -2041,6 +2358,86 @@ func (x *c09Ctx) ruleR3() {
 			}
 		}
 	}
+}
+
+// between lists the calls that leave the process (impure) and the calls whose
+// effects are not known (unsure) on the paths from the not-known edge of test t
+// (in frame tf) to the lock-in call lk (in frame hf, tf being hf or a frame above it).
+func (x *c09Ctx) between(hf, tf *c09Frame, t c09Test, lk ssa.CallInstruction) (impure, unsure []string) {
+	w := x.w
+	seg := func(fn *ssa.Function, start *ssa.BasicBlock, target ssa.Instruction) {
+		tb := target.Block()
+		fromStart := an.ReachBlocks([]*ssa.BasicBlock{start}, nil, nil)
+		for _, b := range fn.Blocks {
+			if !fromStart[b] {
+				continue
+			}
+			if b != tb && !an.ReachBlocks([]*ssa.BasicBlock{b}, nil, nil)[tb] {
+				continue
+			}
+			for i, in := range b.Instrs {
+				if b == tb && i >= an.InstrIndex(target) {
+					break
+				}
+				ci, ok := in.(ssa.CallInstruction)
+				if !ok {
+					continue
+				}
+				info := w.Info(ci)
+				at := " at " + w.Pos(ci.Pos())
+				switch {
+				case isImpureServiceCall(info.Name):
+					impure = append(impure, strings.TrimPrefix(info.Name, "iface:")+at)
+				case info.IsGo:
+					unsure = append(unsure, "goroutine started"+at)
+				case info.Static != nil && w.InModule(info.Static):
+					if info.Static.Blocks == nil {
+						unsure = append(unsure, x.fname(info.Static)+" (no body)"+at)
+						continue
+					}
+					for _, ef := range w.Summary(info.Static).Effects {
+						if isImpureServiceCall(ef.Name) {
+							impure = append(impure, strings.TrimPrefix(ef.Name, "iface:")+" (via "+x.fname(info.Static)+")"+at)
+							break
+						}
+						if strings.HasPrefix(ef.Name, "dyn:") || strings.HasPrefix(ef.Name, "go:") {
+							unsure = append(unsure, x.fname(info.Static)+" makes a dynamic call"+at)
+							break
+						}
+					}
+				case info.Static != nil || strings.HasPrefix(info.Name, "builtin:"):
+					// library function: in-process computation
+				case strings.HasPrefix(info.Name, "iface:swap.") || strings.HasPrefix(info.Name, "iface:"):
+					if strings.HasPrefix(info.Name, "iface:error.") || strings.HasSuffix(info.Name, ".Error") || strings.HasSuffix(info.Name, ".String") {
+						continue
+					}
+					unsure = append(unsure, strings.TrimPrefix(info.Name, "iface:")+" (interface call)"+at)
+				default:
+					unsure = append(unsure, info.Name+at)
+				}
+			}
+		}
+	}
+	// chain of frames from the handler up to the frame of the test
+	var chain []*c09Frame
+	for f := hf; f != nil; f = f.parent {
+		chain = append(chain, f)
+		if f == tf {
+			break
+		}
+	}
+	for i, f := range chain {
+		var target ssa.Instruction = lk
+		if i > 0 {
+			target = chain[i-1].site
+		}
+		if f == tf {
+			seg(f.fn, t.not.To(), target)
+		} else if len(f.fn.Blocks) > 0 {
+			seg(f.fn, f.fn.Blocks[0], target)
+		}
+	}
+	return c09Uniq(impure), c09Uniq(unsure)
 }
 
 func c09Uniq(in []string) []string {
